@@ -1163,7 +1163,7 @@ pub fn run_app(a: &ShardArgs) -> Result<(), String> {
         run_scenario(app_scenario(a, idx));
     }
     if only.is_none() {
-        for idx in 0..a.n(600) {
+        for idx in 0..a.n(80) {
             if idx % a.nshards != a.shard {
                 continue;
             }
